@@ -84,7 +84,7 @@ def corpus_stability(prop, rep, base):
         return
     import concurrent.futures as cf
     import glob
-    neutral = sorted(glob.glob(os.path.join(VERIF, "neutral", "C*", "ref*", "patch.diff")))
+    neutral = sorted(glob.glob(os.path.join(VERIF, "neutral", "C*", "*ref*", "patch.diff")))
     seeded = sorted(glob.glob(os.path.join(VERIF, "seeded", f"{prop}-*", "patch.diff")))
     jobs = [(prop, p, base) for p in neutral + seeded]
     if not jobs:
